@@ -9,7 +9,7 @@ From Dashu Require Import Base.Prelude Base.Words Int.DivWordModel Int.DivLargeP
   Int.DivNumModular Int.DivNumModularProofs Int.DivSrcInst Int.DivSrcInstProofs
   Int.ModRingSpec Int.ModRingModel Int.ModRingProofs Int.ModRingNumModularDefs Int.ModRingNumModular
   Int.ModRingWords Int.ModRingWordsProofs Int.ModRingWordsMulProofs Int.ModRingWordsInst
-  Int.ModRingConv Int.ModRingConvProofs.
+  Int.ModRingConv Int.ModRingConvProofs Int.ModRingGcdSmall Int.ModRingMain.
 Open Scope Z_scope.
 
 Section Src.
@@ -71,6 +71,27 @@ Proof.
   - exact (ws_from_ubig_eq w w2 (nm1by1 w) (nm2by1 w) (nm1by1_contract w) (nm2by1_contract w wp) r x Hwf K Hx).
   - exact (wd_from_ubig_eq w w2 (nm2by2 w) (nm3by2 w) (nm4by2 w) (nm2by2_contract w) (nm3by2_contract w wp) (nm4by2_contract w wp) r x Hwf K Hx).
 Qed.
+
+(** Reduced::inv on word lists with gcd_ext_word / gcd_ext_dword TRANSCRIBED (ModRingGcdSmall.v): the only premise
+    left is the contract of gcd_ext_in_place (Lehmer) on values of three and more words *)
+Theorem src_inv lehmer :
+  (forall lhs rhs, 2 ^ w * 2 ^ w <= rhs < lhs ->
+     let '(g, b, s) := lehmer lhs rhs in
+     g = Z.gcd lhs rhs /\ 0 <= b < lhs /\ (g = 1 -> (rhs * signed s b) mod lhs = 1 mod lhs)) ->
+  forall R r x raw, lring_ok w R r -> ring_wf w r -> wrep w R r x raw ->
+  exists o, wl_inv w (gcd_ext_dispatch w lehmer) R raw = Ok o /\ winv_post w R r x o.
+Proof.
+  intros HL R r x raw HR Hwf Hrep.
+  exact (wl_inv_ok w w2 (gcd_ext_dispatch w lehmer) (gcd_ext_dispatch_ok w w2 lehmer HL) R r x raw HR Hwf Hrep).
+Qed.
+
+(** ... and at value level (inverse / division / expressions of every ring): [externals_ok] from the Lehmer contract alone *)
+Theorem src_externals lehmer :
+  (forall lhs rhs, 2 ^ w * 2 ^ w <= rhs < lhs ->
+     let '(g, b, s) := lehmer lhs rhs in
+     g = Z.gcd lhs rhs /\ 0 <= b < lhs /\ (g = 1 -> (rhs * signed s b) mod lhs = 1 mod lhs)) ->
+  externals_ok w (nm2by1 w) (nm3by2 w) nm_finv (gcd_ext_dispatch w lehmer).
+Proof. intros HL. apply (externals_nm w _ w2). exact (gcd_ext_dispatch_ok w w2 lehmer HL). Qed.
 
 End Src.
 
